@@ -948,7 +948,7 @@ impl Control {
         if self.session.is_empty() {
             return;
         }
-        let (stream_bytes, has_bad) = self.session_stream();
+        let (mut stream_bytes, has_bad) = self.session_stream();
         let mut h: u64 = 0xcbf29ce484222325;
         for b in &stream_bytes {
             h = (h ^ *b as u64).wrapping_mul(0x100000001b3);
@@ -957,6 +957,13 @@ impl Control {
             return;
         }
         mon.count("socket-session");
+        // every other session: the peer half-closes right after the last byte of its last request, WITHOUT a line
+        // terminator (`printf '%s' '{..}' | socat`, a client that exits after its last byte): the request is complete
+        // all the same - the stdin entry point answers it - and must be answered / applied here too
+        if (h >> 17) % 2 == 0 && stream_bytes.last() == Some(&b'\n') {
+            stream_bytes.pop();
+            mon.count("socket-session:unterminated-last-line");
+        }
         if has_bad {
             mon.count("socket-session:with-invalid-utf8");
         }
